@@ -299,3 +299,83 @@ Print Assumptions C15_heap_independent.
 Example C15_heap_example : repr (below 15) ex_heap 0 None ex_tree.
 Proof. exact ex_heap_repr. Qed.
 Print Assumptions C15_heap_example.
+
+(** field writes (SetName, SetLength/SetSupport/SetPValue, AddComment/ClearComments on nodes and
+    branches) are store updates at the id of the record and, for comments, of its comment cell
+    ([touched]); a sequence is [confined Q] when every write touches only ids of [Q] in the
+    store it is applied to.  What a region carries is unchanged by ANY sequence of writes
+    confined to a disjoint region: *)
+Theorem C15_heap_writes_frame :
+  forall (P Q : nat -> Prop) h nid par t ws,
+    (forall i, P i -> Q i -> False) -> confined Q h ws ->
+    repr P h nid par t -> repr P (apply_writes h ws) nid par t.
+Proof. exact repr_writes. Qed.
+Print Assumptions C15_heap_writes_frame.
+
+(** Clone: editing either one never changes the other *)
+Theorem C15_heap_clone_edits :
+  forall t fuel h root k,
+    repr (below k) h root None t -> k <= hnext h -> usize t <= fuel ->
+    let h' := fst (clone_h fuel h root) in
+    let r' := snd (clone_h fuel h root) in
+    (forall ws, confined (between (hnext h) (hnext h')) h' ws ->
+                repr (below k) (apply_writes h' ws) root None t) /\
+    (forall ws, confined (below k) h' ws ->
+                repr (between (hnext h) (hnext h')) (apply_writes h' ws) r' None (clone t)).
+Proof. exact clone_edits. Qed.
+Print Assumptions C15_heap_clone_edits.
+
+(** SubTree(n) on the store: the source is untouched, the fresh region carries the copy of the
+    node's subtree (its parent slot dropped), and editing either one never changes the other *)
+Theorem C15_heap_subtree :
+  forall t fuel h nid par k,
+    repr (below k) h nid par t ->
+    (forall pe pn, par = Some (pe, pn) -> exists hpe, hedges h pe = Some hpe /\ he_left hpe <> nid) ->
+    k <= hnext h -> usize t <= fuel ->
+    exists m', hnext (fst (subtree_h fuel h nid)) = m' /\ hnext h <= snd (subtree_h fuel h nid) < m' /\
+      agree (below k) h (fst (subtree_h fuel h nid)) /\
+      repr (below k) (fst (subtree_h fuel h nid)) nid par t /\
+      repr (between (hnext h) m') (fst (subtree_h fuel h nid)) (snd (subtree_h fuel h nid)) None
+           (copy_node true t).
+Proof. exact subtree_h_ok. Qed.
+Print Assumptions C15_heap_subtree.
+
+Theorem C15_heap_subtree_edits :
+  forall t fuel h nid par k,
+    repr (below k) h nid par t ->
+    (forall pe pn, par = Some (pe, pn) -> exists hpe, hedges h pe = Some hpe /\ he_left hpe <> nid) ->
+    k <= hnext h -> usize t <= fuel ->
+    let h' := fst (subtree_h fuel h nid) in
+    let r' := snd (subtree_h fuel h nid) in
+    (forall ws, confined (between (hnext h) (hnext h')) h' ws ->
+                repr (below k) (apply_writes h' ws) nid par t) /\
+    (forall ws, confined (below k) h' ws ->
+                repr (between (hnext h) (hnext h')) (apply_writes h' ws) r' None (copy_node true t)).
+Proof. exact subtree_edits. Qed.
+Print Assumptions C15_heap_subtree_edits.
+
+(** * GraftTreeOnTip on the store: what IS shared afterwards *)
+(** [graft_h h tn tr] replaces the tip node [tn] of the host by the root [tr] of the graft in
+    the host's branch [pe] and in the neighbours of the host's node [pn]; nothing is copied
+    or allocated.  Afterwards the handle of the graft tree denotes a subtree of the host: the
+    root [tr] keeps its id and everything below it (region [Q]), it has [pn] as a new last
+    neighbour through the host's branch [pe], whose right end it now is.  The nodes of the
+    graft tree belong to the host from then on (the documented behaviour: "it is advised not
+    to use the graft after"): writes through the old handle are writes in the host. *)
+Theorem C15_heap_graft_shares :
+  forall h tn tr h' (Q : nat -> Prop) n c sl root,
+    graft_h h tn tr = Some h' ->
+    hnodes h tr = Some root -> hn_name root = n -> hcells h (hn_com root) = Some c ->
+    slots_repr Q h (repr Q h) tr None (hn_neigh root) (hn_br root) sl ->
+    exists pe pn hpe,
+      hedges h pe = Some hpe /\ he_right hpe = tn /\ he_left hpe = pn /\
+      (pn <> tr -> ~ Q tr -> ~ Q pn -> ~ Q pe ->
+       hnext h' = hnext h /\
+       hedges h' pe = Some (mkHE pn tr (he_len hpe) (he_sup hpe) (he_pv hpe) (he_com hpe)) /\
+       (forall i, i <> pn -> i <> tr -> hnodes h' i = hnodes h i) /\
+       (forall i, i <> pe -> hedges h' i = hedges h i) /\
+       (forall i, hcells h' i = hcells h i) /\
+       repr (fun i => Q i \/ i = tr \/ i = hn_com root) h' tr (Some (pe, pn))
+            (add_up_end (UNode n c sl))).
+Proof. exact graft_h_shares. Qed.
+Print Assumptions C15_heap_graft_shares.
